@@ -39,10 +39,24 @@ def dy(rng, lo: float, hi: float) -> float:  # noqa: ANN001
     return rng.randint(int(lo * 8), int(hi * 8)) / 8.0
 
 
-def gen_op(rng, net, spec) -> dict:  # noqa: ANN001
+def gen_op(rng, net, spec, tiny: bool = False) -> dict:  # noqa: ANN001
     t = spec.t_reached
     r = rng.random()
     pnames = list(net.params)
+    if tiny:
+        # far out on the time axis, segments much shorter than the time reached (k/256 at t ~ 1000):
+        # bookkeeping that compares times with a relative tolerance or loses resolution shows here
+        if t < 500:
+            return {"op": "simulate", "t_end": float(rng.choice([512, 1024, 2048])), "steps": 2}
+        if r < 0.45:
+            return {"op": "simulate", "t_end": t + rng.randint(1, 8) / 256.0, "steps": rng.randint(1, 4)}
+        if r < 0.6:
+            return {"op": "simulate_tc", "points": [t + i / 256.0 for i in range(1, rng.randint(2, 5))]}
+        if r < 0.85:
+            return {"op": "update_variable", "name": rng.choice(net.variables), "value": dy(rng, 0.0, 4.0)}
+        if r < 0.9:
+            return {"op": "read_views"}
+        return {"op": "update_parameter", "name": rng.choice(pnames), "value": dy(rng, 0.25, 2.5)}
     if r < 0.28:
         mode = rng.random()
         if mode < 0.75:
@@ -81,8 +95,10 @@ def gen_op(rng, net, spec) -> dict:  # noqa: ANN001
         return {"op": "update_variable", "name": rng.choice(net.variables), "value": dy(rng, 0.0, 4.0)}
     if r < 0.80:
         return {"op": "update_variables", "values": {v: dy(rng, 0.0, 4.0) for v in net.variables}}
-    if r < 0.87:
+    if r < 0.84:
         return {"op": "steady"}
+    if r < 0.88:
+        return {"op": "read_views"}
     if r < 0.91:
         return {"op": "clear"}
     pp = rng.sample(pnames, rng.randint(1, min(3, len(pnames))))  # a protocol names the same parameters in every step
@@ -109,8 +125,10 @@ def run_case(case: dict) -> dict:
     history: list[dict] = []
     viols: list[dict] = []
     counters: dict[str, int] = {"ops": 0, "segments_checked": 0}
-    for _ in range(rng.randint(2, 8)):
-        op = gen_op(rng, net, spec)
+    tiny = rng.random() < 0.2
+    counters["mode:tiny_segments_at_large_time"] = int(tiny)
+    for _ in range(rng.randint(2, 8) + (3 if tiny else 0)):
+        op = gen_op(rng, net, spec, tiny)
         history.append(op)
         counters["ops"] += 1
         counters[f"op:{op['op']}"] = counters.get(f"op:{op['op']}", 0) + 1
